@@ -19,11 +19,38 @@ def pick_kind(rng, kinds, default):
 
 
 
+TZOFF = None   # minutes east of UTC; when set (`aware`), every candle built here carries an AWARE stamp with that fixed offset
+
+
+class aware:
+    """context manager: timestamps handed to the library are timezone-AWARE (same wall clock, fixed UTC offset).  The library
+    aligns buckets to the wall clock of the stamps' own tzinfo, so everything must come out as for the naive stamps; what it returns
+    is compared by wall clock (`candle_tuple` drops the tzinfo again)."""
+
+    def __init__(self, minutes):
+        self.minutes = minutes
+
+    def __enter__(self):
+        global TZOFF
+        self.old, TZOFF = TZOFF, self.minutes
+        return self
+
+    def __exit__(self, *exc):
+        global TZOFF
+        TZOFF = self.old
+        return False
+
+
 def mk_candle(t):
     from hexital.core.candle import Candle
 
     ts, o, h, l, c, v = t
-    return Candle(open=o, high=h, low=l, close=c, volume=v, timestamp=wire.secs_to_ts(ts))
+    stamp = wire.secs_to_ts(ts)
+    if stamp is not None and TZOFF is not None:
+        from datetime import timezone
+
+        stamp = stamp.replace(tzinfo=timezone(timedelta(minutes=TZOFF)))
+    return Candle(open=o, high=h, low=l, close=c, volume=v, timestamp=stamp)
 
 
 def mk_candles(ts):
@@ -31,7 +58,10 @@ def mk_candles(ts):
 
 
 def candle_tuple(c):
-    return (wire.ts_to_secs(c.timestamp), c.open, c.high, c.low, c.close, c.volume)
+    ts = c.timestamp
+    if ts is not None and ts.tzinfo is not None:
+        ts = ts.replace(tzinfo=None)   # wall clock
+    return (wire.ts_to_secs(ts), c.open, c.high, c.low, c.close, c.volume)
 
 
 def mgr_kwargs(tf=None, fill=False, ha=False, life=None):
